@@ -57,7 +57,7 @@ def drive(op_factory, chunks, key=None, junk=None, mode=None):
         op_factory = lambda: op
     _MODE[0] += 1
     if mode is None:
-        mode = {1: 'warmup', 4: 'warmup', 2: 'reentrant', 5: 'reentrant'}.get(_MODE[0] % 7, 'plain')
+        mode = {1: 'warmup', 4: 'warmup', 2: 'reentrant', 5: 'reentrant', 6: 'reusebuf'}.get(_MODE[0] % 7, 'plain')
     LAST_MODE[0] = mode
 
     def run(reentrant_counts=None, warm=False):
@@ -84,12 +84,23 @@ def drive(op_factory, chunks, key=None, junk=None, mode=None):
             except Exception:
                 pass
 
+        reuse = mode == 'reusebuf' and chunks and isinstance(chunks[0], (bytes, bytearray))
+        rbuf = bytearray(max([len(c) for c in chunks] + [1])) if reuse else None
+
         def push_next():
             c = chunks[pos[0]]
             pos[0] += 1
             got[0] = 0
             mark = len(cur)
-            subj.on_next(c)
+            if reuse:
+                # a receive buffer that the caller fills again for every read (recv_into style):
+                # what the operator keeps of a chunk must be a copy
+                rbuf[:len(c)] = c
+                subj.on_next(memoryview(rbuf)[:len(c)] if pos[0] % 2 else bytearray(rbuf[:len(c)]))
+                for q in range(len(rbuf)):
+                    rbuf[q] = 0xEE
+            else:
+                subj.on_next(c)
             return mark
 
         def on_next(x):
@@ -146,13 +157,30 @@ def drive(op_factory, chunks, key=None, junk=None, mode=None):
     return run(warm=(mode == 'warmup'))
 
 
+class _Loud(str):
+    """a str subclass whose display form is not its content (as str-mixin Enum members)"""
+
+    def __str__(self):
+        return 'LOUD'
+
+    def __format__(self, spec):
+        return 'LOUD'
+
+
+_FRAME = [0]
+
+
 def frame_all(op_factory, items):
     """frames of all items; an item that frame() refuses contributes nothing (the wire then
-    differs from the specified one: clause 'frame')"""
+    differs from the specified one: clause 'frame').  Every third call hands the items over as
+    another type with the same content: a str subclass with its own display form, a bytearray."""
     import rx
     out = []
+    _FRAME[0] += 1
+    if _FRAME[0] % 3 == 0:
+        items = [_Loud(i) if type(i) is str else (bytearray(i) if type(i) is bytes else i) for i in items]
     rx.from_(items).pipe(op_factory()).subscribe(on_next=out.append, on_error=lambda e: None)
-    return out
+    return [bytes(o) if isinstance(o, bytearray) else (str.__str__(o) if isinstance(o, str) else o) for o in out]
 
 
 def cut(seq, sizes):
